@@ -70,6 +70,47 @@ def check(run, prog, tier):
                       "index is located on the axis it indexes, and a propagation step that is no whole multiple of the "
                       "tensor's step is refused", minimum=6)
     rule_I(run, prog)
+    run.rule("C07-J", "both forms hand back the full complex result of acting on an operator: no apply() writes its result into the "
+                      "array the operand already holds (which may be real)", minimum=4)
+    rule_J(run, prog)
+
+
+def rule_J(run, prog):
+    """'... act identically on every operator': R.A is complex for a Redfield tensor whatever A is.  The operator form
+    builds a new array and rebinds the operand's data to it.  An apply() that stores into the operand's existing array
+    (`oper.data[:, :] = ...`, `oper._data[...] = ...`, an in-place operator on it) casts the result to the element type
+    of that array - the imaginary part is dropped for every operand with real storage (projectors, Operator(real=True),
+    a density matrix made from a real array) - and the two forms of one tensor differ on it.  All apply() methods of
+    the classes of qm.liouvillespace are examined; their operand is the first parameter."""
+    rid = "C07-J"
+    n = 0
+    for cls in prog.all_classes():
+        if not cls.qualname.startswith("quantarhei.qm.liouvillespace.") or ".tests." in cls.qualname or "apply" not in cls.methods:
+            continue
+        f = cls.methods["apply"]
+        if len(f.node.args.args) < 2:
+            continue
+        n += 1
+        prog.consulted.add(f.relpath)
+        opers = {a.arg for a in f.node.args.args[1:]}
+        bad = None
+        for st in walk_no_nested(f.node):
+            tg = st.targets if isinstance(st, ast.Assign) else ([st.target] if isinstance(st, ast.AugAssign) else [])
+            for t_ in tg:
+                b_ = t_
+                while isinstance(b_, ast.Subscript):
+                    b_ = b_.value
+                inplace = (b_ is not t_) or isinstance(st, ast.AugAssign)
+                if inplace and isinstance(b_, ast.Attribute) and b_.attr in ("data", "_data") and isinstance(b_.value, ast.Name) \
+                        and b_.value.id in opers:
+                    bad = st
+        run.obligation(rid, f.short, bad is None, key="result-in-a-new-array",
+                       message="%s stores its result with `%s` into the array the operand already holds: the complex result is cast to "
+                               "the element type of that array, so for an operand with real storage the imaginary part of R.A is "
+                               "lost - the operator form, which rebinds the data, returns it" % (f.short, norm(bad)[:70] if bad else ""),
+                       loc=f.loc(bad) if bad else f.loc(f.node))
+    if n < 4:
+        raise AnalysisError("C07-J: only %d apply() methods found in qm.liouvillespace" % n)
 
 
 def rule_E(run, prog):
